@@ -13,6 +13,7 @@ import (
 	"runtime"
 	"strconv"
 	"strings"
+	"unsafe"
 
 	"github.com/btcsuite/btcd/btcutil/v2"
 	"github.com/btcsuite/btcd/chainhash/v2"
@@ -68,6 +69,17 @@ func (P) Facts() []core.Fact {
 	add("TxFlagMarker", wire.TxFlagMarker)
 	add("WitnessFlag", int64(wire.WitnessFlag))
 	add("InvWitnessFlag", wire.InvWitnessFlag)
+	// element sizes the allocation model charges per accepted count (64-bit build)
+	add("sizeofTxIn", int64(unsafe.Sizeof(wire.TxIn{})))
+	add("sizeofTxOut", int64(unsafe.Sizeof(wire.TxOut{})))
+	add("sizeofMsgTx", int64(unsafe.Sizeof(wire.MsgTx{})))
+	add("sizeofInvVect", int64(unsafe.Sizeof(wire.InvVect{})))
+	add("sizeofBlockHeader", int64(unsafe.Sizeof(wire.BlockHeader{})))
+	add("sizeofNetAddress", int64(unsafe.Sizeof(wire.NetAddress{})))
+	add("sizeofNetAddressV2", int64(unsafe.Sizeof(wire.NetAddressV2{})))
+	add("sizeofHash", int64(unsafe.Sizeof(chainhash.Hash{})))
+	add("sizeofSlice", int64(unsafe.Sizeof([]byte{})))
+	add("sizeofPointer", int64(unsafe.Sizeof(&wire.TxIn{})))
 	// command strings, in the order of the driver's table
 	fs = append(fs, core.Fact{Name: "commands", Value: commandList()})
 	// MaxPayloadLength of every command at the current protocol version and at version 0
@@ -402,6 +414,8 @@ func (P) Exec(line string) string {
 			same = bytes.Equal(w.Bytes(), b[:len(b)-rd.Len()])
 		}
 		return fmt.Sprintf("ok %s %s %s %d %s", m.Command(), dump(m, pver), re, rd.Len(), canonTok(same)) + allocTok(al)
+	case "encrefused":
+		return "refused"
 	case "txbytes":
 		t, err := btcutil.NewTxFromBytes(mustHex(f[2]))
 		if err != nil {
